@@ -906,6 +906,8 @@ static int32 parseSafeContents(psPool_t *pool, unsigned char *password,
                 return rc;
             }
             p += rc;
+            /* A key from an earlier bag is replaced, not leaked */
+            psClearPubKey(privKey);
             /* Result of decrypt will be a PKCS#8 key */
             if ((rc = psPkcs8ParsePrivBin(pool, pt, cryptlen, NULL, privKey))
                 < 0)
@@ -918,6 +920,8 @@ static int32 parseSafeContents(psPool_t *pool, unsigned char *password,
             p += cryptlen;
             break;
         case OID_PKCS12_BAG_TYPE_KEY:
+            /* A key from an earlier bag is replaced, not leaked */
+            psClearPubKey(privKey);
             if ((rc = psPkcs8ParsePrivBin(pool, (unsigned char *) p, tmplen,
                      NULL, privKey)) < 0)
             {
